@@ -109,6 +109,25 @@ def perc2okta_kernel(ctx, rule='C18-R3'):
     ctx.saw(f)
     ex, s = summary(ctx, f)
     var = ('p', f.params[0])
+    # "0 only for n = 0, 8 only for n = m" for every m: the edges are exact comparisons. A tolerance comparison
+    # (isclose / allclose with a non-zero tolerance) of the percentage gives okta 0 to n = 1 and okta 8 to n = m - 1
+    # once m is large enough for 100 / m to fall below the tolerance
+    TOL = {'numpy.isclose', 'math.isclose', 'numpy.allclose'}
+    seen_tol = set()
+    for root in [s.ret] + [e.guard for e in s.events if e.kind == 'raise']:
+        for x in T.walk(root):
+            if tag(x) == 'call' and tag(x[1]) == 'g' and x[1][1] in TOL and x not in seen_tol and \
+                    any(y == var for a in x[2] for y in T.walk(a)):
+                seen_tol.add(x)
+                kws = dict(x[3] or ())
+                exact = all(nm in kws and T.is_const(kws[nm]) and kws[nm][1] == 0 for nm in ('rtol', 'atol')) \
+                    if x[1][1] != 'math.isclose' else \
+                    all(nm in kws and T.is_const(kws[nm]) and kws[nm][1] == 0 for nm in ('rel_tol',)) and \
+                    ('abs_tol' not in kws or (T.is_const(kws['abs_tol']) and kws['abs_tol'][1] == 0))
+                ctx.check(exact, rule, f.qname, f.node.name, f.loc(),
+                          f'perc2okta decides on the percentage with a tolerance: {T.show(x, maxlen=140)} - with enough '
+                          'measurements one hit (n = 1) is within the tolerance of 0 % and gets okta 0, n = m - 1 gets okta 8',
+                          instance='perc2okta: the edges 0 % / 100 % are exact comparisons')
     k = K.Kernel(var, rule)
     raises = [e for e in s.events if e.kind == 'raise']        # wherever written (a validation helper, ...)
     ctx.check(len(raises) == 1, rule, f.qname, f.node.name, f.loc(),
